@@ -387,7 +387,7 @@ fn collisions(c: &mut Choices, defs: &mut Vec<Definition>, k: usize) -> Vec<&'st
 }
 
 /// A type-system definition list and a label for its source.
-fn ts_defs(c: &mut Choices, max_types: usize) -> (Vec<Definition>, &'static str, Vec<&'static str>) {
+pub(crate) fn ts_defs(c: &mut Choices, max_types: usize) -> (Vec<Definition>, &'static str, Vec<&'static str>) {
     let (mut defs, source, muts) = match c.weighted(&[45, 35, 20]) {
         0 => {
             let (doc, _) = schema_ext::rich_schema(c, max_types);
